@@ -110,7 +110,7 @@ func session(name string, nUser, nHandler, m int, pacing string, rng *rand.Rand)
 	srv := s.Srv
 	base, _ := srv.Lines()
 	skip := len(base)
-	rec := &sessionRec{Name: name}
+	rec := &sessionRec{Name: name, Wire: []wireLine{}, Senders: []senderRec{}}
 	// every sender issues its lines through a rotating set of command methods; mk returns the
 	// line as it must appear on the wire and the call that issues it
 	type issue struct {
